@@ -140,6 +140,27 @@ func init() {
 			u.note("LabelSet.Fingerprint: uninterpreted function of the label-set object (label sets immutable once stored)")
 			return intV(t)
 		},
+		"maps.Copy": func(fr *Frame, st *State, a []Val, in ssa.Instruction) Val {
+			// maps.Copy(dst, src): dst' = dst overridden by src
+			u := fr.u
+			ci := in.(ssa.CallInstruction)
+			mt, ok := ci.Common().Args[0].Type().Underlying().(*types.Map)
+			if !ok {
+				u.unsup("maps.Copy on non-map")
+			}
+			dom, val, ks, vs := u.mapHeaps(mt)
+			d, s := a[0].T, a[1].T
+			fr.safe(st, or(not(eq(d, "0")), eq(sel(u.heapCur(st, dom), s), u.emptySet(ks))), in.Pos(), "nilmap", "maps.Copy into a nil map")
+			dh, vh := u.heapCur(st, dom), u.heapCur(st, val)
+			nd := u.enc.freshConst("copydom", "(Array "+ks+" Bool)")
+			nv := u.enc.freshConst("copyval", "(Array "+ks+" "+vs+")")
+			u.assume(fmt.Sprintf("(forall ((k!m %s)) (! (= (select %s k!m) (or (select (select %s %s) k!m) (select (select %s %s) k!m))) :pattern ((select %s k!m))))", ks, nd, dh, d, dh, s, nd))
+			u.assume(fmt.Sprintf("(forall ((k!m %s)) (! (= (select %s k!m) (ite (select (select %s %s) k!m) (select (select %s %s) k!m) (select (select %s %s) k!m))) :pattern ((select %s k!m))))", ks, nv, dh, s, vh, s, vh, d, nv))
+			u.assume(app(">=", u.card(ks, nd), "0"))
+			u.heapStoreAt(st, dom, d, nd)
+			u.heapStoreAt(st, val, d, nv)
+			return unitV()
+		},
 		"errors.New":  freshErr,
 		"fmt.Errorf":  freshErr,
 		"errors.Is": func(fr *Frame, st *State, a []Val, _ ssa.Instruction) Val {
